@@ -14,7 +14,7 @@ address const CA = address(address_v4(0x0a000001));
 address const PA = address(address_v4(0x0a000002));
 address const OA = address(address_v4(0x0a000003));
 
-enum { A_LITERAL, A_NAMED, A_UNRESOLVABLE, A_REFUSED, A_DEFAULT_PORT, A_RELATIVE, A_LITERAL_HDR, A_COLON_PATH, NREQKIND };
+enum { A_LITERAL, A_NAMED, A_UNRESOLVABLE, A_REFUSED, A_DEFAULT_PORT, A_RELATIVE, A_LITERAL_HDR, A_COLON_PATH, A_NAMED_PORT5, NREQKIND };
 char const* const req_text[NREQKIND] = {
 	"GET http://10.0.0.3:8080/hello HTTP/1.1\r\n\r\n",
 	"PUT http://origin.test:8080/a/b?c=d HTTP/1.1\r\nHost: origin.test\r\n\r\n",
@@ -24,11 +24,12 @@ char const* const req_text[NREQKIND] = {
 	"GET /relative HTTP/1.1\r\n\r\n",
 	"GET http://10.0.0.3:8080/ HTTP/1.1\r\nX-A: 1\r\nHost: h\r\n\r\n",
 	"GET http://10.0.0.3:8080/clock/12:30?t=1:2 HTTP/1.1\r\n\r\n",
+	"GET http://origin.test:38080/p5 HTTP/1.1\r\n\r\n",
 };
 // what the origin must receive (request line; headers are checked by content)
-char const* const origin_line[NREQKIND] = { "GET /hello HTTP/1.1\r\n", "PUT /a/b?c=d HTTP/1.1\r\n", "", "", "", "", "GET / HTTP/1.1\r\n", "GET /clock/12:30?t=1:2 HTTP/1.1\r\n" };
-char const* const origin_host[NREQKIND] = { "host: 10.0.0.3\r\n", "host: origin.test\r\n", "", "", "", "", "host: h\r\n", "host: 10.0.0.3\r\n" };
-bool forwardable(int k) { return k == A_LITERAL || k == A_NAMED || k == A_LITERAL_HDR || k == A_COLON_PATH; }
+char const* const origin_line[NREQKIND] = { "GET /hello HTTP/1.1\r\n", "PUT /a/b?c=d HTTP/1.1\r\n", "", "", "", "", "GET / HTTP/1.1\r\n", "GET /clock/12:30?t=1:2 HTTP/1.1\r\n", "GET /p5 HTTP/1.1\r\n" };
+char const* const origin_host[NREQKIND] = { "host: 10.0.0.3\r\n", "host: origin.test\r\n", "", "", "", "", "host: h\r\n", "host: 10.0.0.3\r\n", "host: origin.test\r\n" };
+bool forwardable(int k) { return k == A_LITERAL || k == A_NAMED || k == A_LITERAL_HDR || k == A_COLON_PATH || k == A_NAMED_PORT5; }
 
 struct client
 {
@@ -117,18 +118,23 @@ extern "C" int harness_main()
 	config cfg;
 	host_entry he; he.name = "origin.test"; he.latency_ns = 2000000; he.addrs = { OA }; he.err = 0;
 	cfg.hosts.push_back(he);
+#ifdef SMALLMTU
+	// a path MTU of 16 bytes: every request and response takes several segments and more than one congestion
+	// window, so that the proxy's writes complete partially and have to be continued
+	cfg.mtu = 16;
+#endif
 	simulation s(cfg);
 	cfg.net.append(std::make_shared<queue>(s.get_io_context(), 0, duration(1000000), 0, "net"));
 	asio::io_context cios(s, CA), pios(s, PA), oios(s, OA), tios(s);
 	error_code ec;
+	// ---- scenario: one request of any kind, or two pipelined requests to the same origin
+	int const scen = vp_choose(NREQKIND + 3);
 	http_proxy* proxy = new http_proxy(pios, 4444);
 	origin o; tcp::acceptor oacc(oios); tcp::socket osock(oios);
 	o.acc = &oacc; o.sock = &osock;
-	oacc.open(tcp::v4(), ec); oacc.bind(tcp::endpoint(OA, 8080), ec); oacc.listen(5, ec);
+	oacc.open(tcp::v4(), ec); oacc.bind(tcp::endpoint(OA, (unsigned short)(scen == A_NAMED_PORT5 ? 38080 : 8080)), ec); oacc.listen(5, ec);
 	origin_accept(o);
 
-	// ---- scenario: one request of any kind, or two pipelined requests to the same origin
-	int const scen = vp_choose(NREQKIND + 3);
 	int kinds[2]; int nreq = 1;
 	if (scen < NREQKIND) kinds[0] = scen;
 	else { nreq = 2; int const pairs[3][2] = {{A_LITERAL, A_LITERAL}, {A_NAMED, A_LITERAL_HDR}, {A_LITERAL_HDR, A_LITERAL}}; kinds[0] = pairs[scen - NREQKIND][0]; kinds[1] = pairs[scen - NREQKIND][1]; }
@@ -190,7 +196,7 @@ extern "C" int harness_main()
 	// ---- the next client is accepted
 	{
 		client d; tcp::socket dsock(cios); asio::high_resolution_timer dtimer(tios);
-		d.sock = &dsock; d.timer = &dtimer; d.out = req_text[A_LITERAL]; d.gaps.push_back(0);
+		d.sock = &dsock; d.timer = &dtimer; int const nk = scen == A_NAMED_PORT5 ? A_NAMED_PORT5 : A_LITERAL; d.out = req_text[nk]; d.gaps.push_back(0);
 		std::size_t const before = o.responses.size();
 		std::size_t const in_before = o.in.size(); int const answered_before = o.answered;
 		dsock.open(tcp::v4(), ec);
@@ -201,7 +207,7 @@ extern "C" int harness_main()
 		vp_assert(d.in.size() > 0, 32);
 		// the origin saw exactly this client's request, nothing left over from the previous client
 		vp_assert(o.answered == answered_before + 1, 33);
-		vp_assert(o.in.compare(in_before, std::string::npos, std::string(origin_line[A_LITERAL]) + origin_host[A_LITERAL] + "\r\n") == 0, 34);
+		vp_assert(o.in.compare(in_before, std::string::npos, std::string(origin_line[nk]) + origin_host[nk] + "\r\n") == 0, 34);
 		dsock.close(ec);
 		s.run();
 	}
